@@ -91,7 +91,11 @@ class StepWorld:
             self.df = df
             data = workload.to_data(df, cfg["kind"])
             self.dataset = Dataset(data)
-            self.model = workload.make_model(cfg["kind"], cfg["nf"])
+            mk = {}
+            if cfg.get("init_random") and workload.kind_info(cfg["kind"])["family"] != "linear":
+                mk["initialization_method"] = "random"   # (drawn from torch's generator, seeded from the plan just below / by the fit)
+            self.model = workload.make_model(cfg["kind"], cfg["nf"], source_dimension=cfg.get("sd"), **mk)
+            torch.manual_seed(cfg["gseed"] & 0x7FFFFFFF)
             self.model.initialize(self.dataset)
             algo_kw = dict(n_iter=cfg.get("n_iter", 50), progress_bar=False, seed=None)
             algo_kw["sampler_pop"] = cfg.get("sampler_pop", "Gibbs")
@@ -415,4 +419,16 @@ def gen_world_cfg(st: Stream, *, kinds=None, ahl_choices=(25,), allow_mixture=Fa
         "ahl": st.choice(list(ahl_choices)),
         "random_order_dimension": st.bernoulli(0.8),
     }
+    _vary_shape(st, cfg)
     return cfg
+
+
+def _vary_shape(st: Stream, cfg: dict) -> None:
+    """Swarm dimensions added late (drawn last so that earlier plan fields keep their values): number of features, number of sources,
+    random initial parameters, fixed order of the variables."""
+    cfg["nf"] = st.choice([3, 3, 2, 4])
+    if cfg["nf"] == 4:
+        cfg["sd"] = st.choice([1, 2, 3])
+    cfg["init_random"] = st.bernoulli(0.2)
+    if st.bernoulli(0.25):
+        cfg["random_order_variables"] = False
